@@ -1,1 +1,1 @@
-def wedgeScaleBeforeRotUtils : Bool := true
+def wedgeScaleBeforeRotUtils : Bool := false
